@@ -234,7 +234,20 @@ pub fn replay_cache(path: &str, t: &mut Trace) {
     stretto::verif::install(Some(sched.clone()));
     let mut case: Option<Case> = None;
     let mut rng = Rng::new(1);
+    // optional first line: `flags exact_map=0 collisions=0 quiescent=1`
+    let mut fl = (false, true, false);
     for line in text.lines() {
+        if let Some(rest) = line.strip_prefix("flags ") {
+            for kv in rest.split(' ') {
+                match kv {
+                    "exact_map=1" => fl.0 = true,
+                    "collisions=0" => fl.1 = false,
+                    "quiescent=1" => fl.2 = true,
+                    _ => {}
+                }
+            }
+            continue;
+        }
         if let Some(rest) = line.strip_prefix("case ") {
             if let Some(c) = case.take() {
                 c.finish(t, &mut rng);
@@ -247,7 +260,7 @@ pub fn replay_cache(path: &str, t: &mut Trace) {
             match toks[0] {
                 "cnew" => {
                     let cfg = parse_cnew(&toks);
-                    let flags = crate::monitors::Flags { exact_map: false, collisions: true, quiescent_profile: false };
+                    let flags = crate::monitors::Flags { exact_map: fl.0, collisions: fl.1, quiescent_profile: fl.2 };
                     match Case::new(sched.clone(), cfg.clone(), 4, 0, flags) {
                         Ok(c) => {
                             t.step(&cnew_line(&cfg, c.item_size));
